@@ -1,7 +1,7 @@
 (* C03, first half: the records one reader obtains over time follow publication order, for every
    schedule and every release/acquire-legal choice of the events its loads return. *)
 From Coq Require Import ZArith List Bool Arith NArith Lia.
-From CB Require Import Gen GenProofs Machine MachineFacts SeqlockInv SeqlockRA.
+From CB Require Import GenCyc Gen GenProofs Machine MachineFacts SeqlockInv SeqlockRA.
 Import ListNotations.
 Open Scope nat_scope.
 
@@ -18,9 +18,6 @@ Qed.
 Lemma idx_of_zeros n : idx_of (repeat 0%Z n) = 0.
 Proof. unfold idx_of. destruct n; reflexivity. Qed.
 
-Definition in_iteration (pc : rpc) : bool :=
-  match pc with RCopy _ _ _ _ | RFence _ _ _ | RReload _ _ _ => true | _ => false end.
-
 (* where the cached record comes from, and that the reader cannot look behind it any more *)
 Definition MonoInv (c : cfg) (L : list event) (r : rst) : Prop :=
   r_cache r = repeat 0%Z (c_cells c) \/
@@ -36,11 +33,11 @@ Proof.
 Qed.
 
 (* one reader step: the invariant is kept and the publication number of the cache does not decrease *)
-Theorem mono_step c L r ch r' it ret : safe_cfg c = true -> LogInv (c_cells c) L -> (Z.of_nat (evens L) < 32767)%Z ->
+Theorem mono_step c L r ch r' it ret : safe_cfg c = true -> LogInv (c_cells c) L -> GenCyc L -> window_ok L r ->
   RInv c L r -> MonoInv c L r -> r_step c L r ch = Some (r', it, ret) ->
   MonoInv c L r' /\ idx_of (r_cache r) <= idx_of (r_cache r').
 Proof.
-  intros Hs LI NW RI MI S. destruct (safe_parts c Hs) as (_ & _ & _ & _ & Af & _ & _ & Hn).
+  intros Hs LI GC Hw RI MI S. destruct (safe_parts c Hs) as (_ & _ & _ & _ & Af & _ & _ & Hn).
   destruct ret as [[| |]|] eqn:Eret.
   - (* cache served *)
     destruct (r_step_cache c L r ch r' it _ S) as [[H _]|(_ & Ec & _)]; [discriminate|].
@@ -62,7 +59,7 @@ Proof.
     destruct PC' as [PC' Hcoh]. destruct MI as [Hz|(q & e & E & El & A & Hc & Hq & _)]; [left; rewrite Ec; exact Hz|].
     right. exists q, e. rewrite Ec, PC'. repeat split; auto; try lia. discriminate.
   - (* fresh record accepted *)
-    destruct (r_step_accept_pos c L r ch r' it Hs LI NW RI S) as (e1 & E1 & El1 & K1 & A1 & Hc1 & Hco1).
+    destruct (r_step_accept_pos c L r ch r' it Hs LI GC Hw RI S) as (e1 & E1 & El1 & K1 & A1 & Hc1 & Hco1 & _).
     assert (PC' : r_pc r' = RIdle).
     { destruct (accept_needs_equal_even c L r ch r' it S) as (g & acc & b & v & p & PC & D).
       unfold r_step in S. rewrite PC, D, Z.eqb_refl in S. inversion S. reflexivity. }
@@ -195,12 +192,12 @@ Qed.
 Lemma replace_nth_length {A} (l : list A) j x : length (replace_nth l j x) = length l.
 Proof. revert j. induction l as [|a l IH]; intros j; [destruct j; reflexivity|]. destruct j; cbn; auto. Qed.
 
-Theorem m_step_mono c m t m' o : safe_cfg c = true -> MInv2 c m -> real_token t ->
-  m_step m t = (m', o) -> (Z.of_nat (m_nrec m') < 32767)%Z ->
+Theorem m_step_mono_win c m t m' o : safe_cfg c = true -> MInv2 c m -> real_token t ->
+  m_step m t = (m', o) -> Forall (window_ok (w_log (m_w m))) (m_rs m) ->
   MInv2 c m' /\ forall lb, caches_ge lb m -> sorted_from lb o /\ caches_ge (apply_obs lb o) m'.
 Proof.
-  intros Hs [I MO] Ht St Hn.
-  destruct (m_step_inv c m t m' o Hs I Ht St Hn) as (I' & Hle & _).
+  intros Hs [I MO] Ht St Hwin.
+  destruct (m_step_inv_win c m t m' o Hs I Ht St Hwin) as (I' & Hle & _).
   pose proof (M_cfg _ _ I) as Ec. pose proof (M_w _ _ I) as WI. pose proof (M_rs _ _ I) as RS.
   unfold m_step in St. rewrite Ec in St. destruct t as [| j ch | | | | v]; try contradiction.
   - (* writer step: readers untouched, log extended *)
@@ -212,10 +209,11 @@ Proof.
   - (* reader step *)
     destruct (nth_error (m_rs m) j) as [r|] eqn:Er.
     + destruct (r_step c (w_log (m_w m)) r ch) as [[[r' it] ret]|] eqn:R; inversion St; subst m' o; clear St.
-      * assert (NW : (Z.of_nat (evens (w_log (m_w m))) < 32767)%Z) by (apply (nowrap_of c m I); cbn in Hn; lia).
+      * pose proof (W4_log _ (M_gen _ _ I)) as GC.
+        assert (Hw : window_ok (w_log (m_w m)) r) by (rewrite Forall_forall in Hwin; apply Hwin; eapply nth_error_In; eauto).
         assert (Hr : RInv c (w_log (m_w m)) r) by (rewrite Forall_forall in RS; apply RS; eapply nth_error_In; eauto).
         assert (Hm : MonoInv c (w_log (m_w m)) r) by (rewrite Forall_forall in MO; apply MO; eapply nth_error_In; eauto).
-        destruct (mono_step c _ r ch r' it ret Hs (W_log _ _ WI) NW Hr Hm R) as [Hm' Hidx].
+        destruct (mono_step c _ r ch r' it ret Hs (W_log _ _ WI) GC Hw Hr Hm R) as [Hm' Hidx].
         split.
         -- constructor; [exact I'|]. cbn [m_w m_rs]. apply Forall_replace_nth; assumption.
         -- intros lb [G1 G2].
@@ -257,6 +255,28 @@ Proof.
            ++ rewrite (G2 k Hge). lia.
         -- intros k Hk. rewrite app_length in Hk. cbn in Hk. apply G2. lia.
     + split; [constructor; assumption|]. intros lb G. split; [exact Logic.I | exact G].
+Qed.
+
+Theorem m_step_mono c m t m' o : safe_cfg c = true -> MInv2 c m -> real_token t ->
+  m_step m t = (m', o) -> (Z.of_nat (m_nrec m') < 32767)%Z ->
+  MInv2 c m' /\ forall lb, caches_ge lb m -> sorted_from lb o /\ caches_ge (apply_obs lb o) m'.
+Proof.
+  intros Hs I2 Ht St Hn. pose proof (m_step_nrec m t m' o St) as Hle.
+  apply (m_step_mono_win c m t m' o Hs I2 Ht St). apply (windows_of_nowrap c m (M2_inv _ _ I2)). lia.
+Qed.
+
+Theorem m_run_mono_win c : safe_cfg c = true -> forall ts m m' o lb, MInv2 c m -> Forall real_token ts ->
+  m_run m ts = (m', o) -> run_windows m ts -> caches_ge lb m ->
+  sorted_from lb o.
+Proof.
+  intros Hs. induction ts as [|t ts IH]; intros m m' o lb I Hts R Hw G.
+  - cbn in R. inversion R; subst. exact Logic.I.
+  - cbn [m_run] in R. destruct (m_step m t) as [m1 o1] eqn:S1. destruct (m_run m1 ts) as [m2 o2] eqn:R2.
+    inversion R; subst m' o; clear R. inversion Hts as [|? ? Ht Hts']; subst.
+    cbn [run_windows] in Hw. rewrite S1 in Hw. cbn [fst] in Hw. destruct Hw as [Hw0 Hw1].
+    destruct (m_step_mono_win c m t m1 o1 Hs I Ht S1 Hw0) as (I1 & Hstep).
+    destruct (Hstep lb G) as [So1 G1].
+    apply sorted_app; [exact So1|]. eapply IH; eauto.
 Qed.
 
 Theorem m_run_mono c : safe_cfg c = true -> forall ts m m' o lb, MInv2 c m -> Forall real_token ts ->
